@@ -76,6 +76,8 @@ struct Plan {
     period: Duration,
     create_at: u64,
     abort_at: Option<u64>,
+    /// abort right after creation, with no await in between: the timer task cannot have been polled yet
+    abort_now: bool,
 }
 
 #[derive(Clone)]
@@ -230,8 +232,15 @@ async fn body(seed: u64, trace: Arc<Trace>) -> (Vec<String>, Vec<(String, String
             period = Duration::from_millis(unit); // keep the number of ticks of a scenario bounded
         }
         let create_at = grid(&mut p);
-        let abort_at = if p.chance(1, 3) { Some(create_at + grid(&mut p)) } else { None };
-        plans.push(Plan { id: id as u32, kind, derived: p.chance(1, 3), period, create_at, abort_at });
+        let abort_now = p.chance(1, 8);
+        let abort_at = if abort_now {
+            Some(create_at)
+        } else if p.chance(1, 3) {
+            Some(create_at + grid(&mut p))
+        } else {
+            None
+        };
+        plans.push(Plan { id: id as u32, kind, derived: p.chance(1, 3), period, create_at, abort_at, abort_now });
     }
     let exit_at = if p.chance(1, 2) { Some((grid(&mut p) + p.below(2), p.below(3))) } else { None };
     // slow handlers make the target busy (must not influence firing times)
@@ -320,7 +329,9 @@ async fn body(seed: u64, trace: Arc<Trace>) -> (Vec<String>, Vec<(String, String
                 }
             }
             if let Some(a) = pl.abort_at {
-                tokio::time::sleep(Duration::from_millis(a - pl.create_at)).await;
+                if !pl.abort_now {
+                    tokio::time::sleep(Duration::from_millis(a - pl.create_at)).await;
+                }
                 let at = Instant::now().duration_since(t0).as_millis() as u64;
                 for (id, h) in ha.lock().unwrap().iter() {
                     if *id == pl.id {
@@ -412,6 +423,7 @@ async fn body(seed: u64, trace: Arc<Trace>) -> (Vec<String>, Vec<(String, String
                     }
                 }
                 let expect_fire = match ab {
+                    _ if pl.abort_now => Some(false), // aborted before its task was ever polled: whatever the period, nothing is sent
                     Some(a) if a < due => Some(false),
                     Some(a) if a == due => None, // same instant: 0 or 1
                     _ => {
